@@ -10,6 +10,7 @@ import WD.Driver.C08
 import WD.Driver.C12
 import WD.Driver.C18
 import WD.Driver.C20
+import WD.Driver.Pipe
 open WD.Driver WD.Proto
 
 def handle (line : String) : String :=
@@ -19,6 +20,7 @@ def handle (line : String) : String :=
   | "subcreated" :: ts => c14Line "subcreated" ts
   | "rekey" :: ts => c14Line "rekey" ts
   | "dq" :: ts => c17Line ts
+  | "pipe" :: ts => pipeLine ts
   | "inodec" :: ts => c20Line "inodec" ts
   | "windec" :: ts => c20Line "windec" ts
   | "deb" :: ts => c18Line ts
